@@ -300,6 +300,7 @@ def oracle(w, mev, timeout_s):
     order = []
     last_seq = None
     sent_of = {}  # caller -> (seq, cid)
+    first_under_seq = {}  # caller -> first event carrying its sequence number while it waited
     own_reply_seen = {}  # caller -> event at which a frame with its own sequence number and frame ID arrived while it waited
     inflight = None
     send_done_at = None
@@ -370,10 +371,14 @@ def oracle(w, mev, timeout_s):
             sent_of[best] = (sq, cid)
             inflight = best
             w._sending = best
-        if m and m.startswith("F=") and m[2:].count(":") == 3 and inflight is not None:
+        if m and m.startswith("F=") and m[2:].count(":") == 3 and inflight is not None and inflight in sent_of:
             fs_, fi_, inv_, tg_ = m[2:].split(":")
-            if sent_of.get(inflight) == (int(fs_), int(fi_)):
-                own_reply_seen.setdefault(inflight, ev)
+            # (the first frame that carries the call's sequence number decides: the handler gives the entry to that frame, whatever
+            # its ID - a reply that comes after a foreign frame under the same number finds no entry any more)
+            if int(fs_) == sent_of[inflight][0] and inflight not in first_under_seq:
+                first_under_seq[inflight] = ev
+                if int(fi_) == sent_of[inflight][1]:
+                    own_reply_seen.setdefault(inflight, ev)
         # a frame that arrives while its call is still inside send_data completes it when the send completes
         if m and m.startswith("F=") and m[2:].count(":") == 3 and inflight is not None:
             fs, fi, inv, tg = m[2:].split(":")
